@@ -39,6 +39,13 @@ def _dfa(M, entry, relabel=lambda l: l):
     return [[i, a, [[l, t] for l, t in out]] for i, a, out in rows]
 
 
+# functions whose behaviour is decided exactly (all shapes the rule understands denote the same function) by another rule;
+# keeping them in the shape-sensitive signatures would only add alarms on behaviour-preserving rewrites
+DECIDED_ELSEWHERE = {
+    P + "bit_writer::BitWriter::pad": "C07/W6 decides the padding replay exactly for the loop and the masked-write shape",
+}
+
+
 def pure_leaves(F):
     roots = F.roots_for(RECON)
     par = F.reach(roots)
@@ -136,8 +143,9 @@ def compute_surface(F):
             continue
         S[part]["const:" + nm.replace(P, "")] = val
     # ---- decision thresholds of the looping functions (V4) ------------------------------------------------
-    S["stream"]["thresholds"] = thresholds(F, [d for d in defs if d not in leaves])
-    S["stream"]["arith"] = arith(F, [d for d in defs if d not in leaves])
+    sig_fns = [d for d in defs if d not in leaves and d not in DECIDED_ELSEWHERE]
+    S["stream"]["thresholds"] = thresholds(F, sig_fns)
+    S["stream"]["arith"] = arith(F, sig_fns)
     # ---- closed forms -------------------------------------------------------------------------------
     for d in leaves:
         try:
@@ -149,8 +157,9 @@ def compute_surface(F):
 
 
 def _feeds_only_assert(b, local, depth=0):
-    """The value only feeds comparisons whose outcome selects between continuing and an assertion failure."""
-    if depth > 4:
+    """The value only feeds comparisons whose outcome selects between continuing and an assertion failure, or the
+    formatting machinery (logging / messages): it cannot influence what is reconstructed."""
+    if depth > 6:
         return False
     us = flow.uses(b, local)
     if not us:
@@ -159,13 +168,20 @@ def _feeds_only_assert(b, local, depth=0):
         if u[0] == "stmt":
             s = u[3]
             r = s["r"]
-            if s["k"] == "assign" and not s["p"]["p"] and (r["k"] == "use" or (r["k"] == "binop" and r["op"] in ("Le", "Lt", "Ge", "Gt", "Eq", "Ne")) or (r["k"] == "unop" and r["op"] == "Not")):
+            if s["k"] == "assign" and not s["p"]["p"] and (r["k"] in ("use", "ref") or (r["k"] == "binop" and r["op"] in ("Le", "Lt", "Ge", "Gt", "Eq", "Ne")) or (r["k"] == "unop" and r["op"] == "Not")
+                                                       or (r["k"] == "agg" and r.get("ak") in ("array", "tuple") and depth > 0)):
                 if not _feeds_only_assert(b, s["p"]["l"], depth + 1):
                     return False
+            elif s["k"] in ("storage", "storage_live", "storage_dead", "nop"):
+                continue
             else:
                 return False
         else:
             t = u[2]
+            if t["k"] == "call" and re.search(r"core::fmt::rt::Argument|fmt::Arguments|std::fmt::Arguments", callee_def(t)):
+                continue
+            if t["k"] == "drop":
+                continue
             if t["k"] != "switch":
                 return False
             tg = [x for _, x in t["targets"]] + [t["otherwise"]]
